@@ -544,6 +544,11 @@ def entitiesKnown : Str → Bool
   | [] => true
   | c :: r => (if c = '&' then (entityAt r).isSome else true) && entitiesKnown r
 
+/-- the header texts the reader above is a faithful XML reader for: only the predefined entities,
+and no tab or carriage return anywhere (an XML parser turns white space inside an attribute value
+into a space; this reader does not); line breaks are the line structure -/
+def inReaderSubset (head : Str) : Bool := entitiesKnown head && !head.contains '\t' && !head.contains '\r'
+
 /-- decidable form of the hypothesis `HeadOk` of the header theorems -/
 def headOkB (endian : Str) (spacing : Str × Str × Str) (names : List Str) : Bool :=
   endian.all (fun c => c ≠ '"' && c ≠ '&' && c ≠ '\n') &&
